@@ -1,20 +1,27 @@
 """C14 — simulations leave scenes, scenarios and global state untouched, even on failure.
 
-Proof:  lean/ScenicModel/Props/C14*.lean
-          proxy_isolation, sim_scene_untouched, sim_proxies_disabled, sim_reads_unchanged, sim_reaches_endSimulation,
-          sim_forgets_overrides, hist_scene_untouched, overrides_reverted, session_restores (+ negation witnesses),
-        parametric in the configuration / tables regenerated from /repo on every run by
-          translate/simcleanup.py    -> Gen/SimCleanup.lean     (finally order, agents init, override merge, stop clears)
+Proof:  lean/ScenicModel/Props/C14*.lean (root module Props/C14.lean)
+          general (parametric in the generated configuration / tables):
+            proxy_isolation, sim_scene_untouched, sim_proxies_disabled, sim_reads_unchanged, sim_reaches_endSimulation,
+            sim_forgets_overrides, hist_scene_untouched, hist_reads_unchanged, overrides_reverted, overrides_reverted_nested,
+            session_restores, runSimD_eq_runSim, sim_scene_untouched_destroy (+ negation witnesses of every hypothesis)
+          closed, about the source as it is (side conditions re-decided on the regenerated data on every run):
+            sim_leaves_no_trace_current, sim_scene_untouched_current, sim_always_ends_current, sim_proxies_disabled_current,
+            hist_scene_untouched_current, hist_reads_unchanged_current, overrides_reverted(_nested)_current,
+            sim_restores_globals_current, compile_restores_globals_current, sim_scene_untouched_destroy_current
+        data regenerated from /repo on every run by
+          translate/simcleanup.py    -> Gen/SimCleanup.lean     (finally order, agents init, destroy guarded, override merge, stop clears)
           translate/veneerglobals.py -> Gen/VeneerGlobals.lean  (who assigns / restores / resets which veneer global)
-        Side conditions on the generated data: `Props/C14.lean` (always) and `Props/C14Side*.lean` (one module per
-        condition that is false of the source as found; each such condition must be explained by a known finding
-        that the direct oracle reproduces, otherwise it is a broken obligation).
+        `Props/C14SideDestroy.lean` (the rest of the finally block is protected against a destroy() that raises) is false
+        of the source as found: it is built only when the driver says its condition holds; while it does not, the known
+        finding it corresponds to must be reproduced by the direct oracle in the same run (else: broken obligation).
 Tie:    (T) the two translators; (C) the Lean driver is run on the event traces of instrumented real simulations
         (overrides / proxies / clean-up model) and on operation sequences executed on the real veneer functions
         (globals model) and must predict every observation;
         (S) the property itself on the real code: failure-injection matrix (program x failure point x mode), scene
-        snapshot before/after, veneer globals against a fresh process, identical follow-up run and a from-scratch
-        follow-up against a fresh-process reference, override-undone oracle at every scenario end.
+        snapshot before/after, veneer globals against a fresh process, identical follow-up run, a scene generated from
+        the same compiled scenario after the simulations and a from-scratch follow-up, each against a fresh-process
+        reference, override-undone oracle at every scenario end.
 """
 import json
 import os
@@ -25,58 +32,40 @@ import traceback
 
 from vlib.ctx import Infra, TemplateMismatch
 
-THEOREMS = [
-    "Scenic.C14.proxy_isolation",
-    "Scenic.C14.sim_scene_untouched",
-    "Scenic.C14.sim_proxies_disabled",
-    "Scenic.C14.sim_reads_unchanged",
-    "Scenic.C14.sim_reaches_endSimulation",
-    "Scenic.C14.sim_forgets_overrides",
-    "Scenic.C14.hist_scene_untouched",
-    "Scenic.C14.hist_reads_unchanged",
-    "Scenic.C14.overrides_reverted",
-    "Scenic.C14.overrides_reverted_current",
-    "Scenic.C14.overrides_reverted_nested",
-    "Scenic.C14.overrides_reverted_nested_current",
-    "Scenic.C14.session_restores",
-    "Scenic.C14.revert_after_disable_changes_scene",
-    "Scenic.C14.repaired_order_keeps_scene",
-    "Scenic.C14.stale_overrides_change_other_scene",
-    "Scenic.C14.forgetting_overrides_keeps_other_scene",
-    "Scenic.C14.setup_failure_skips_endSimulation",
-    "Scenic.C14.first_dict_only_loses_second_override",
-    "Scenic.C14.overwrite_dict_loses_first_override",
-    "Scenic.C14.unreset_global_leaks",
-    "Scenic.C14.suspended_block_leaks",
-]
-SIDE = [
-    "Scenic.C14.gen_merge_keeps_oldest",
-    "Scenic.C14.gen_cleanup_steps_present",
-    "Scenic.C14.gen_model_assumptions",
-    "Scenic.C14.gen_closers_and_cms_wf",
-]
-# (module, theorems, driver flags that must all be 1 for the module to build)
+_T = "Scenic.C14."
+THEOREMS = [_T + n for n in (
+    "proxy_isolation", "sim_scene_untouched", "sim_proxies_disabled", "sim_reads_unchanged", "sim_reaches_endSimulation",
+    "sim_forgets_overrides", "hist_scene_untouched", "hist_reads_unchanged",
+    "overrides_reverted", "overrides_reverted_current", "overrides_reverted_nested", "overrides_reverted_nested_current",
+    "session_restores",
+    # closed theorems about the source as it is
+    "sim_leaves_no_trace_current", "sim_scene_untouched_current", "sim_always_ends_current", "sim_proxies_disabled_current",
+    "hist_scene_untouched_current", "hist_reads_unchanged_current",
+    "sim_restores_globals_current", "compile_restores_globals_current", "sim_and_compile_restore_globals_current",
+    # destroy() raising inside the finally block
+    "runSimD_eq_runSim", "sim_scene_untouched_destroy", "sim_scene_untouched_destroy_current",
+    "destroy_failure_skips_cleanup", "guarded_destroy_failure_harmless",
+    # negation witnesses of the hypotheses
+    "revert_after_disable_changes_scene", "repaired_order_keeps_scene", "stale_overrides_change_other_scene",
+    "forgetting_overrides_keeps_other_scene", "setup_failure_skips_endSimulation", "first_dict_only_loses_second_override",
+    "overwrite_dict_loses_first_override", "unreset_global_leaks", "suspended_block_leaks",
+)]
+SIDE = [_T + n for n in (
+    "gen_merge_keeps_oldest", "gen_cleanup_steps_present", "gen_model_assumptions", "gen_closers_and_cms_wf",
+    "gen_reverts_before_disable", "gen_agents_initialised", "gen_stop_clears_overrides",
+    "gen_sim_writes_reset", "gen_compile_writes_reset", "gen_sim_tables_wf", "gen_compile_tables_wf",
+    "gen_no_suspended_blocks",
+)]
+# side conditions that are false of the source as found: (module, theorems, driver flags that must all be 1 for it to build)
 SIDE_MODULES = [
-    ("ScenicModel.Props.C14SideOrder", ["Scenic.C14.gen_reverts_before_disable", "Scenic.C14.sim_scene_untouched_current"], ["order"]),
-    ("ScenicModel.Props.C14SideAgents", ["Scenic.C14.gen_agents_initialised", "Scenic.C14.sim_always_ends_current",
-                                         "Scenic.C14.sim_proxies_disabled_current"], ["agents"]),
-    ("ScenicModel.Props.C14SideStale", ["Scenic.C14.gen_stop_clears_overrides", "Scenic.C14.hist_scene_untouched_current",
-                                        "Scenic.C14.hist_reads_unchanged_current"],
-     ["order", "agents", "clears"]),
-    ("ScenicModel.Props.C14SideGlobals", ["Scenic.C14.gen_sim_writes_reset", "Scenic.C14.gen_compile_writes_reset",
-                                          "Scenic.C14.gen_sim_tables_wf", "Scenic.C14.gen_compile_tables_wf"], ["simwrites", "compwrites"]),
-    ("ScenicModel.Props.C14SideSuspended", ["Scenic.C14.gen_no_suspended_blocks", "Scenic.C14.sim_restores_globals_current",
-                                            "Scenic.C14.compile_restores_globals_current"], ["simwrites", "compwrites", "susp"]),
+    ("ScenicModel.Props.C14SideDestroy", [_T + "gen_destroy_guarded", _T + "sim_destroy_failure_harmless_current"], ["destroy"]),
 ]
-# a false flag is acceptable only if this known finding is reproduced by the direct oracle in the same run
+# such a flag may be false only while this known finding is reproduced by the direct oracle in the same run
 FLAG_FINDING = {
-    "order": "scene-changed:reverted-after-proxy-disabled",
-    "agents": "global-leak:currentSimulation:setup-failure",
-    "clears": "scene-changed:stale-override",
-    "simwrites": "global-leak:inInitialScenario",
-    "compwrites": "global-leak:inInitialScenario",
-    "susp": "global-leak:currentBehavior:finalizer",
+    "destroy": "cleanup-aborted:sim_destroy",
 }
+# the flags of the side conditions proved in Props/C14.lean (diagnostics when that module no longer builds)
+MAIN_FLAGS = ["order", "clears", "agents", "steps", "simclose", "compclose", "simwrites", "compwrites", "susp"]
 
 FINGERPRINTS = {
     "Simulation.__init__": ("src/scenic/core/simulators.py", "Simulation.__init__"),
@@ -120,16 +109,19 @@ class _Harness:
     def __init__(self):
         self.plan = None
         self.counts = {}
+        self.fired = False
 
     def arm(self, plan):
         self.plan = plan
         self.counts = {}
+        self.fired = False
 
     def hit(self, tag):
         self.counts[tag] = self.counts.get(tag, 0) + 1
         p = self.plan
         if p and p["tag"] == tag and self.counts[tag] == p["n"]:
             mode = p["mode"]
+            self.fired = True
             if mode == "raise":
                 raise Boom(tag)
             if mode == "false":
@@ -190,6 +182,11 @@ def make_simulator():
             h.hit("sim_step")
             for obj in self.objects:
                 obj.position = obj.position + Vector(0, 1, 0)
+
+        def destroy(self):
+            # tearing down the simulator side (raises e.g. when the connection to the simulator was lost)
+            h.hit("sim_destroy")
+            super().destroy()
 
         def getProperties(self, obj, properties):
             h.hit("sim_read")
@@ -592,13 +589,24 @@ def gen_program(rng, force=None):
         always=rng.random() < 0.5,
         steps=rng.choice([4, 7, 10]),
         a=rng.randint(1, 9), b=rng.randint(1, 9),
+        rand_global=rng.random() < 0.5,      # behaviors read a random module-level value (re-bound per scene)
+        simulator_stmt=rng.random() < 0.3,   # the program names a simulator (veneer.simulatorFactory)
+        sub_record=rng.random() < 0.5,       # a sub-scenario records a value of its own
+        dyn_behavior=rng.random() < 0.5,     # the object created by a sub-scenario is an agent
+        soft_req=rng.random() < 0.3,
     )
     if force:
         k.update(force)
     L = [HEADER]
     L.append("model c14model\n" if k["use_model"] else CLASSDEF)
     L.append("param p = Range(0, 1)\n")
-    L.append("behavior Y(k):\n    while True:\n        hit('behavior')\n        take Bump(k)\n")
+    if k["simulator_stmt"]:
+        L.append("simulator None\n")
+    bump = "Bump(k)"
+    if k["rand_global"]:
+        L.append("G = Range(0, 3)\n")
+        bump = "Bump(k + int(G))"
+    L.append(f"behavior Y(k):\n    while True:\n        hit('behavior')\n        take {bump}\n")
     L.append("behavior X(k):\n    self.qux = self.qux + 1\n    do Y(k)\n")
     b = ["behavior B(k):"]
     if k["guard_b"]:
@@ -616,6 +624,8 @@ def gen_program(rng, force=None):
              "hit('setup0')", "require hit('req')"]
         if k["always"]:
             m.append("require always hit('req_always')")
+        if k["soft_req"]:
+            m.append("require[0.5] ego.baz >= 0" + (" and G >= 0" if k["rand_global"] else ""))
         m += ["record val('record', ego.foo) as rfoo", "record (ego.foo, ego.bar, ego.qux) as state",
               "record final ego.qux as fq", "terminate when hit('term') and ego.foo > 1000"]
         if k["monitor"]:
@@ -639,7 +649,10 @@ def gen_program(rng, force=None):
     if k["beh_override"]:
         s += ["        if k == 1:", "            override ego with behavior X(k)"]
     if k["dyn_obj"]:
-        s.append("        dyn = new Foo at (100 + 10 * k, 0, 0), with foo val('spec', 3)")
+        s.append("        dyn = new Foo at (100 + 10 * k, 0, 0), with foo val('spec', 3)"
+                 + (", with behavior Y(k)" if k["dyn_behavior"] else ""))
+    if k["sub_record"]:
+        s.append("        record (ego.foo, k) as sfoo")
     if k["sub_limit"]:
         s.append(f"        terminate after {k['sub_limit'] + 1} steps")
     s += ["    compose:", "        hit('compose')", "        ego.qux = 7"]
@@ -657,6 +670,8 @@ def gen_program(rng, force=None):
     m += ["        hit('setup0')", "        require hit('req')"]
     if k["always"]:
         m.append("        require always hit('req_always')")
+    if k["soft_req"]:
+        m.append("        require[0.5] ego.baz >= 0" + (" and G >= 0" if k["rand_global"] else ""))
     m += ["        record val('record', ego.foo) as rfoo", "        record (ego.foo, ego.bar, ego.qux) as state",
           "        record final ego.qux as fq", "        terminate when hit('term') and ego.foo > 1000"]
     if k["monitor"]:
@@ -679,7 +694,7 @@ def gen_program(rng, force=None):
 
 
 SIM_TAGS = ["req", "req_always", "spec", "setup", "compose", "behavior", "monitor", "guard", "interrupt", "record",
-            "action", "term", "sim_setup", "sim_create", "sim_step", "sim_read"]
+            "action", "term", "sim_setup", "sim_create", "sim_step", "sim_read", "sim_destroy"]
 COMPILE_TAGS = ["model", "spec0", "setup0"]
 BOOL_TAGS = {"req", "req_always", "guard", "interrupt", "term"}
 
@@ -697,8 +712,10 @@ def gen_plan(rng, meta):
     tag = rng.choice(SIM_TAGS)
     modes = ["raise", "raise", "reject"] + (["false", "false"] if tag in BOOL_TAGS else [])
     n = rng.choice([1, 1, 2, 3, 5, 8])
-    if tag == "sim_setup":
+    if tag in ("sim_setup", "sim_destroy"):
         n = 1
+    if tag == "sim_destroy":
+        modes = ["raise"]
     return "simulate", {"tag": tag, "n": n, "mode": rng.choice(modes)}
 
 
@@ -718,25 +735,11 @@ def _outcome(fn):
         return ["raised", type(e).__name__, str(e)[:120]]
 
 
-def _sim_outcome(fn):
-    """like _outcome, but also samples veneer.currentBehavior while the exception (and the frames its traceback
-    keeps alive) still exists: a value that appears only later was written by a finaliser"""
-    import scenic.syntax.veneer as veneer
-    try:
-        r = fn()
-        return ["ok", r], veneer.currentBehavior is None
-    except BaseException as e:  # noqa
-        if isinstance(e, (KeyboardInterrupt, SystemExit)):
-            raise
-        at = veneer.currentBehavior is None
-        return ["raised", type(e).__name__, str(e)[:120]], at
-
-
-def _compile(code, meta, moddir):
+def _compile(code, meta, moddir, params=None):
     import scenic
     if moddir and moddir not in sys.path:
         sys.path.insert(0, moddir)
-    return scenic.scenarioFromString(code, scenario=meta.get("scenario"))
+    return scenic.scenarioFromString(code, scenario=meta.get("scenario"), params=dict(params or {}))
 
 
 def write_model(moddir):
@@ -748,7 +751,8 @@ def write_model(moddir):
 
 
 def reference(case):
-    """Fresh process: compile, generate, simulate without any injected failure."""
+    """Fresh process: compile, generate, simulate without any injected failure.  With `_late` the scene is the one
+    of seed s1+1 (the scene the history generates from the same compiled scenario after its simulations)."""
     import gc
     gc.disable()
     c0 = time.process_time()
@@ -758,10 +762,10 @@ def reference(case):
     InjSimulator = make_simulator()
     out = {}
     try:
-        sc = _compile(case["code"], case["meta"], case["moddir"])
+        sc = _compile(case["code"], case["meta"], case["moddir"], case.get("params"))
     except BaseException as e:  # generator produced an invalid program
         return {"invalid": f"{type(e).__name__}: {str(e)[:200]}"}
-    _seed(case["s1"])
+    _seed(case["s1"] + (1 if case.get("_late") else 0))
     try:
         scene, _ = sc.generate(maxIterations=200)
     except BaseException as e:
@@ -792,6 +796,39 @@ def _scene_diff(a, b):
     return out
 
 
+RESULT_PARTS = ["status", "trajectory", "actions", "records", "terminationType", "terminationReason"]
+
+
+def _result_component(a, b):
+    """the first component in which two simulation outcomes (as returned by _outcome(snap_result)) differ"""
+    if a[0] != b[0] or a[0] != "ok":
+        return "outcome"
+    ra, rb = a[1], b[1]
+    if ra[0] != rb[0] or ra[0] != "completed":
+        return "status"
+    for i in range(1, len(RESULT_PARTS)):
+        if ra[i] != rb[i]:
+            if RESULT_PARTS[i] == "records":
+                ks = sorted(k for k in set(ra[i]) | set(rb[i]) if ra[i].get(k) != rb[i].get(k))
+                return "records." + ks[0]
+            return RESULT_PARTS[i]
+    return "same"
+
+
+def finish_cleanup(sim):
+    """the statements of the finally block of Simulation.__init__ after destroy(), for a block that was cut short"""
+    import scenic.syntax.veneer as veneer
+    from scenic.core.object_types import disableDynamicProxyFor
+    for scenario in tuple(reversed(veneer.runningScenarios)):
+        scenario._stop("exception", quiet=True)
+    for agent in getattr(sim, "agents", ()):
+        if agent.behavior and agent.behavior._isRunning:
+            agent.behavior._stop()
+    for obj in sim.objects:
+        disableDynamicProxyFor(obj)
+    veneer.endSimulation(sim)
+
+
 def run_history(hist):
     """One worker process = one history: the cases are executed one after the other in the same interpreter.
     Returns, per case, the findings of the direct oracle and the event trace for the Lean model."""
@@ -802,65 +839,61 @@ def run_history(hist):
     rec.install()
     InjSimulator = make_simulator()
     import scenic.syntax.veneer as veneer
+    from scenic.core.object_types import disableDynamicProxyFor
     results = []
     for case in hist["cases"]:
         res = {"id": case["id"], "problems": [], "lean": None, "info": {}}
         results.append(res)
         t0 = time.time()
         c0 = time.process_time()
+        ptag = (case["plan"] or {}).get("tag", "-")     # identity of the failure point of this case (part of every key)
 
         def problem(key, what, **extra):
             res["problems"].append(dict(key=key, what=what, **extra))
 
-        def check_globals(stage, cb_none=None):
-            """veneer globals against a fresh process, before and after a garbage collection.  A stale
-            `currentBehavior` that was None when simulate() returned/raised (cb_none) or that appears only through
-            the collection was written by the finaliser of an abandoned generator."""
-            plan = case["plan"] or {}
-            reported = []
-            for phase_ in (("", "+gc") if stage in ("after-run", "after-scratch") else ("",)):
+        def check_globals(stage):
+            """veneer globals against a fresh process; after a run also after a garbage collection (a value that
+            appears only then was written by the finaliser of an abandoned generator)"""
+            for phase_ in (("", "+gc") if stage.startswith("after-run") or stage in ("after-scratch", "after-late") else ("",)):
                 if phase_:
                     gc.collect()
                 g = snap_globals()
                 bad = _diff_globals(g)
-                for n in bad:
-                    key = "global-leak:" + n
-                    if n == "currentBehavior" and (phase_ or cb_none):
-                        key += ":finalizer"
-                    elif plan.get("tag") == "sim_setup" and stage == "after-run" and not phase_:
-                        key = "global-leak:currentSimulation:setup-failure"
-                    problem(key, f"veneer.{n} is {g[n]} {stage}{phase_} (fresh process: {IDLE[n]}); failure point {plan}")
-                    reported.append(n)
-                    if key.endswith("setup-failure"):
-                        break
                 if bad:
+                    first = "currentSimulation" if "currentSimulation" in bad else bad[0]
+                    problem(f"global-leak:{first}:{ptag}",
+                            f"veneer globals differ from a fresh process {stage}{phase_}: "
+                            + ", ".join(f"{n}={g[n]} (fresh: {IDLE[n]})" for n in bad) + f"; failure point {case['plan']}")
                     heal_globals()
-            return reported
+
+        def simulate(scn):
+            return snap_result(InjSimulator().simulate(scn, maxSteps=case["meta"]["steps"], maxIterations=1))
 
         try:
             write_model(case["moddir"])
             path0 = list(sys.path)
+            params = case.get("params")
             # ---- compile phase
             h.arm(case["plan"] if case["phase"] == "compile" else None)
-            comp = _outcome(lambda: _compile(case["code"], case["meta"], case["moddir"]))
+            comp = _outcome(lambda: _compile(case["code"], case["meta"], case["moddir"], params))
             h.arm(None)
             res["info"]["compile"] = comp[0] if comp[0] == "ok" else comp[1]
             check_globals("after-compile")
             if [p for p in sys.path if p not in path0 and p != case["moddir"]]:
-                problem("syspath-leak", f"sys.path grew during compilation: {[p for p in sys.path if p not in path0]}")
+                problem(f"syspath-leak:{ptag}", f"sys.path grew during compilation: {[p for p in sys.path if p not in path0]}")
             from scenic.syntax.translator import ScenicModule
             left = [n for n, m in sys.modules.items() if isinstance(m, ScenicModule) and not n.startswith("scenic.")]
             if left:
-                problem("module-leak", f"Scenic modules left in sys.modules after compilation: {left}")
+                problem(f"module-leak:{ptag}", f"Scenic modules left in sys.modules after compilation: {left}")
                 for n in left:
                     del sys.modules[n]
             if comp[0] != "ok":
                 if case["phase"] != "compile":
                     res["info"]["invalid"] = comp[1:]
                     continue
-                comp = _outcome(lambda: _compile(case["code"], case["meta"], case["moddir"]))
+                comp = _outcome(lambda: _compile(case["code"], case["meta"], case["moddir"], params))
                 if comp[0] != "ok":
-                    problem("followup-differs:compile", f"compiling again after a failed compilation raised {comp[1:]}")
+                    problem(f"followup-differs:compile:{ptag}", f"compiling again after a failed compilation raised {comp[1:]}")
                     heal_globals()
                     continue
                 check_globals("after-recompile")
@@ -878,7 +911,7 @@ def run_history(hist):
                 _seed(case["s1"])
                 gen = _outcome(lambda: sc.generate(maxIterations=200)[0])
                 if gen[0] != "ok":
-                    problem("followup-differs:generate", f"generating again after a failed generation raised {gen[1:]}")
+                    problem(f"followup-differs:generate:{ptag}", f"generating again after a failed generation raised {gen[1:]}")
                     continue
             elif case["phase"] == "generate":
                 # generation succeeded although a requirement failed once (rejection + resampling): regenerate cleanly
@@ -889,8 +922,8 @@ def run_history(hist):
             ref = case.get("ref") or {}
             if "scene" in ref and ref["scene"] != S0:
                 d = _scene_diff(ref["scene"], S0)
-                problem("followup-differs:scene", f"compile+generate with the same seed gives another scene than a fresh process: {d[:3]}")
-            # ---- an extra scene of the same scenario (for overrides remembered across scenes)
+                problem(f"followup-differs:scene:{ptag}", f"compile+generate with the same seed gives another scene than a fresh process: {d[:3]}")
+            # ---- an extra scene of the same scenario (for state remembered across scenes)
             scene_b = None
             if case.get("two_scenes"):
                 _seed(case["s1"] + 1)
@@ -898,7 +931,7 @@ def run_history(hist):
                 scene_b = gb[1] if gb[0] == "ok" else None
             scenes = [scene] + ([scene_b] if scene_b is not None else [])
             snaps = [snap_scene(s) for s in scenes]
-            # ---- the simulations of this case: [failing run on scene, clean run on scene_b?, clean rerun on scene]
+            # ---- the simulations of this case: [warm-up?, failing run on scene, clean run on scene_b?, clean rerun on scene]
             header = []
             rec.objs, rec.scen = {}, {}
             rec.keep, rec.keep_scen = [], []
@@ -910,6 +943,7 @@ def run_history(hist):
                         header.append(f"o:{n}:" + ",".join(map(str, rec.tracked_vals(o, raw=True))))
             lean_tokens = [str(len(TRACKED))] + header
             lean_expect = []
+            lean_ok = True
             runs = []
             if case.get("warmup") and case["phase"] == "simulate":
                 runs.append(("warmup", scenes[-1], None))
@@ -917,48 +951,59 @@ def run_history(hist):
             if scene_b is not None:
                 runs.append(("other-scene", scene_b, None))
             runs.append(("rerun", scene, None))
-            stale_before = {}
             for label, scn, plan in runs:
-                ov = sc.dynamicScenario._overrides
-                stale_pairs = {(rec.obj_no(o), TRACKED.index(p)) for o, d in ov.items() for p in d if p in TRACKED and rec.obj_no(o) is not None}
                 rec.begin_sim()
                 _seed(case["s2"])
                 h.arm(plan)
-                out, cb_none = _sim_outcome(lambda: snap_result(InjSimulator().simulate(scn, maxSteps=case["meta"]["steps"], maxIterations=1)))
+                out = _outcome(lambda: simulate(scn))
+                destroy_failed = bool(plan) and plan["tag"] == "sim_destroy" and h.fired
                 h.arm(None)
                 rec.end_sim()
                 res["info"][label] = out[0] if out[0] != "ok" else out[1][0]
                 ended = veneer.currentSimulation is None
-                proxied = [rec.objs[id(o)] for o in rec.keep if id(o) in rec.objs and object.__getattribute__(o, "_dynamicProxy") is not o]
-                lean_tokens += [f"sim:{1 if rec.agents_set else 0}"] + rec.tokens
+
+                def proxied_now():
+                    return [rec.objs[id(o)] for o in rec.keep if id(o) in rec.objs and object.__getattribute__(o, "_dynamicProxy") is not o]
+                proxied = proxied_now()
+                lean_tokens += [f"sim:{1 if rec.agents_set else 0}:{1 if destroy_failed else 0}"] + rec.tokens
                 lean_expect += rec.expect + [
                     f"e={1 if ended else 0};o={rec.origs()};x={','.join(map(str, proxied))};s={rec.flat_saved(sc.dynamicScenario._overrides, rec.obj_no)}"]
                 for f in rec.undone_failures:
-                    problem("override-not-undone", f"after scenario #{f['scenario']} stopped, property {f['pair']} reads {f['after']} "
+                    problem(f"override-not-undone:{ptag}", f"after scenario #{f['scenario']} stopped, property {f['pair']} reads {f['after']} "
                             f"instead of {f['before']} (its value before the scenario was created); run={label}")
+                if not ended:
+                    g = snap_globals()
+                    problem(f"cleanup-aborted:{ptag}",
+                            f"the finally block of Simulation.__init__ did not complete ({label} run, outcome {out[:2] if out[0] != 'ok' else out[1][0]}, "
+                            f"failure point {plan}): veneer.endSimulation was not reached – veneer globals differing from a fresh process: "
+                            f"{_diff_globals(g)}; objects still proxied: {proxied}; later compilations and simulations in this process fail")
+                    # do what the rest of the block would have done, so that the later checks are independent
+                    rec.in_cleanup = True
+                    try:
+                        finish_cleanup(veneer.currentSimulation)
+                        lean_tokens.append("h")
+                    except BaseException as e:  # noqa
+                        if isinstance(e, (KeyboardInterrupt, SystemExit)):
+                            raise
+                        lean_ok = False
+                        heal_globals()
+                    proxied = proxied_now()
                 if proxied:
-                    problem("proxy-left-enabled", f"objects {proxied} still have a dynamic proxy after the simulation ({label})")
-                    from scenic.core.object_types import disableDynamicProxyFor
+                    problem(f"proxy-left-enabled:{ptag}", f"objects {proxied} still have a dynamic proxy after the simulation ({label})")
+                    lean_ok = False
                     for o in rec.keep:
                         if id(o) in rec.objs:
                             disableDynamicProxyFor(o)
-                check_globals("after-run", cb_none=cb_none)
+                check_globals("after-run:" + label)
                 # scenes untouched?
                 for si, s in enumerate(scenes):
                     now = snap_scene(s)
                     d = _scene_diff(snaps[si], now)
                     if d:
                         i, p, old, new = d[0]
-                        key = "scene-changed:" + (p if p not in TRACKED else "tracked")
-                        if p in TRACKED and i >= 0:
-                            n = rec.obj_no(s.objects[i])
-                            pair = (n, TRACKED.index(p))
-                            if pair in rec.overridden and out[0] == "raised" or (pair in rec.overridden and out[0] == "ok" and out[1][0] == "rejected"):
-                                key = "scene-changed:reverted-after-proxy-disabled"
-                            elif pair in stale_pairs:
-                                key = "scene-changed:stale-override"
-                        problem(key, f"object {i} property {p} of scene {si} read {old} before and {new} after the {label} run "
-                                f"(outcome {out[:2] if out[0] != 'ok' else out[1][0]}, failure point {plan})")
+                        problem(f"scene-changed:{p}:{ptag}",
+                                f"object {i} property {p} of scene {si} read {old} before and {new} after the {label} run "
+                                f"(outcome {out[:2] if out[0] != 'ok' else out[1][0]}, failure point {plan}); all differences: {d[:4]}")
                         # repair the scene so that later checks are independent (mirrored in the Lean trace)
                         for (i2, p2, old2, new2) in d:
                             if i2 >= 0 and p2 in TRACKED:
@@ -966,31 +1011,57 @@ def run_history(hist):
                                 lean_tokens.append(f"f:{rec.obj_no(s.objects[i2])}:{TRACKED.index(p2)}:{int(old2)}")
                         snaps[si] = snap_scene(s)
                 # identical follow-up run against the fresh-process reference
-                if label == "rerun" and "result" in ref and scn is scene:
-                    if out != ref["result"]:
-                        problem("followup-differs:result", f"re-running the simulation with the same seed after the history gives "
-                                f"{json.dumps(out)[:160]} but a fresh process gives {json.dumps(ref['result'])[:160]}")
-                if label == "main" and plan is None and "result" in ref and not case.get("warmup"):
-                    if out != ref["result"]:
-                        problem("followup-differs:result", f"simulating after the history of this process gives {json.dumps(out)[:160]} "
-                                f"but a fresh process gives {json.dumps(ref['result'])[:160]}")
-            res["lean"] = {"line": "C14 hist " + " ".join(lean_tokens), "expect": " ".join(lean_expect)}
+                fresh_expected = (label == "rerun" and scn is scene) or (label == "main" and plan is None and not case.get("warmup"))
+                if fresh_expected and "result" in ref and out != ref["result"]:
+                    comp_ = _result_component(out, ref["result"])
+                    problem(f"followup-differs:result:{comp_}",
+                            f"simulating the scene ({label} run) with the same seed after the history of this process gives "
+                            f"{json.dumps(out)[:200]} but a fresh process gives {json.dumps(ref['result'])[:200]} (first difference: {comp_})")
+            if lean_ok:
+                res["lean"] = {"line": "C14 hist " + " ".join(lean_tokens), "expect": " ".join(lean_expect)}
+            # ---- the compiled scenario is untouched: a scene generated from it now, and its simulation, are those of a fresh process
+            rl = case.get("ref_late") or {}
+            if case.get("late") and "result" in rl:
+                _seed(case["s1"] + 1)
+                gl = _outcome(lambda: sc.generate(maxIterations=200)[0])
+                if gl[0] != "ok":
+                    problem(f"followup-differs:late-generate:{ptag}", f"generating from the same compiled scenario after its simulations raised {gl[1:]}")
+                elif snap_scene(gl[1]) != rl["scene"]:
+                    d = _scene_diff(rl["scene"], snap_scene(gl[1]))
+                    problem(f"followup-differs:late-scene:{ptag}", "a scene generated from the same compiled scenario after its simulations differs "
+                            f"from the scene a fresh process generates with the same seed: {d[:3]}")
+                else:
+                    _seed(case["s2"])
+                    r3 = _outcome(lambda: simulate(gl[1]))
+                    if r3 != rl["result"]:
+                        comp_ = _result_component(r3, rl["result"])
+                        problem(f"followup-differs:result:{comp_}",
+                                f"simulating a scene generated after the history gives {json.dumps(r3)[:200]} but a fresh process gives "
+                                f"{json.dumps(rl['result'])[:200]} (first difference: {comp_})")
+                    if veneer.currentSimulation is not None:
+                        heal_globals()
+                check_globals("after-late")
+                for si, s in enumerate(scenes):
+                    d = _scene_diff(snaps[si], snap_scene(s))
+                    if d:
+                        problem(f"scene-changed:{d[0][1]}:{ptag}", f"scene {si} changed while another scene of the scenario was generated and simulated: {d[:3]}")
             # ---- from-scratch follow-up: compile + generate + simulate again in this process
             if case.get("scratch") and "result" in ref:
-                c2 = _outcome(lambda: _compile(case["code"], case["meta"], case["moddir"]))
+                c2 = _outcome(lambda: _compile(case["code"], case["meta"], case["moddir"], params))
                 if c2[0] != "ok":
-                    problem("followup-differs:compile", f"compiling again raised {c2[1:]}")
+                    problem(f"followup-differs:compile:{ptag}", f"compiling again raised {c2[1:]}")
                 else:
                     _seed(case["s1"])
                     g2 = _outcome(lambda: c2[1].generate(maxIterations=200)[0])
                     if g2[0] != "ok" or snap_scene(g2[1]) != ref["scene"]:
-                        problem("followup-differs:scene", "compile+generate from scratch gives another scene than a fresh process")
+                        problem(f"followup-differs:scene:{ptag}", "compile+generate from scratch gives another scene than a fresh process")
                     else:
                         _seed(case["s2"])
-                        r2 = _outcome(lambda: snap_result(InjSimulator().simulate(g2[1], maxSteps=case["meta"]["steps"], maxIterations=1)))
+                        r2 = _outcome(lambda: simulate(g2[1]))
                         if r2 != ref["result"]:
-                            problem("followup-differs:result", f"compile+generate+simulate from scratch gives {json.dumps(r2)[:160]} "
-                                    f"but a fresh process gives {json.dumps(ref['result'])[:160]}")
+                            comp_ = _result_component(r2, ref["result"])
+                            problem(f"followup-differs:result:{comp_}", f"compile+generate+simulate from scratch gives {json.dumps(r2)[:200]} "
+                                    f"but a fresh process gives {json.dumps(ref['result'])[:200]} (first difference: {comp_})")
                 check_globals("after-scratch")
         except BaseException as e:  # harness problem: report, never a violation
             if isinstance(e, (KeyboardInterrupt, SystemExit)):
@@ -1024,7 +1095,7 @@ scenario Main():
     compose:
         ego.foo = 5
         do Sub()
-""", "scenario": "Main", "key": "scene-changed:reverted-after-proxy-disabled"},
+""", "scenario": "Main", "key": "regression:revert-after-disable"},
     # D2: the shared top-level scenario never forgets its overrides
     "stale-override": {
         "code": REG_CLASS + """
@@ -1036,7 +1107,7 @@ scenario Main():
         wait
         override ego with foo 7
         wait
-""", "scenario": "Main", "key": "scene-changed:stale-override"},
+""", "scenario": "Main", "key": "regression:stale-override"},
     # D3: inInitialScenario is never reset
     "initial-scenario": {
         "code": REG_CLASS + """
@@ -1048,7 +1119,7 @@ scenario Main():
             ego = new Foo with foo 2
     compose:
         wait
-""", "scenario": "Main", "key": "global-leak:inInitialScenario"},
+""", "scenario": "Main", "key": "regression:initial-scenario"},
     # D4: executeInBehavior held open by an abandoned generator
     "behavior-finalizer": {
         "code": REG_CLASS + """
@@ -1071,9 +1142,9 @@ scenario Main():
         ego = new Foo with behavior B()
     compose:
         do Sub()
-""", "scenario": "Main", "key": "global-leak:currentBehavior:finalizer"},
+""", "scenario": "Main", "key": "regression:behavior-finalizer"},
     # D5: simulator set-up failing before self.agents exists
-    "setup-failure": {"code": "ego = new Object\n", "scenario": None, "key": "global-leak:currentSimulation:setup-failure"},
+    "setup-failure": {"code": "ego = new Object\n", "scenario": None, "key": "regression:setup-failure"},
     # repaired in c4c953c9 (probe_t3): second override of the same object
     "second-override": {
         "code": "class Foo:\n    foo: 0\n    bar: 0\n" + """
@@ -1092,7 +1163,45 @@ scenario Main():
         do Sub()
         wait
         wait
-""", "scenario": "Main", "key": "override-not-undone:second-override"},
+""", "scenario": "Main", "key": "regression:second-override"},
+    # repaired by 41fb4809 / 0e4a55a4: an exception raised by an interrupt condition while the body of the try-interrupt
+    # statement is suspended inside `do Y()` abandons the body; its blocks were finalised when the traceback was released
+    # (after endSimulation) and left veneer.currentBehavior stale
+    "abandoned-try-block": {
+        "code": REG_CLASS + """
+def boom():
+    if simulation().currentTime >= 2:
+        raise RuntimeError("boom")
+    return False
+behavior Y():
+    while True:
+        wait
+behavior B():
+    try:
+        do Y()
+    interrupt when boom():
+        wait
+ego = new Foo with behavior B()
+""", "scenario": None, "key": "regression:abandoned-try-block"},
+    # the shared top-level scenario keeps the sub-scenarios of the previous simulation in _subScenarios
+    "stale-subscenarios": {
+        "code": REG_CLASS + """
+scenario Sub():
+    setup:
+        record ego.foo as sfoo
+    compose:
+        while True:
+            wait
+scenario Main():
+    setup:
+        ego = new Foo
+    compose:
+        wait
+        wait
+        do Sub()
+""", "scenario": "Main", "key": "followup-differs:result:records.sfoo"},
+    # the simulator interface's destroy() raises inside the finally block of Simulation.__init__
+    "destroy-failure": {"code": "ego = new Object\n", "scenario": None, "key": "cleanup-aborted:sim_destroy"},
 }
 
 
@@ -1181,6 +1290,62 @@ def run_regression(_arg=None):
             fb = [v for _, v in sim.result.records["fb"]]
             out["violated"] = fb[-1] != (0, 0)
             out["what"] = f"after the sub-scenario ended (foo, bar) reads {fb[-1]} instead of (0, 0); series {fb}"
+        elif name == "abandoned-try-block":
+            gc.disable()
+            sc = scenic.scenarioFromString(r["code"])
+            scene, _ = sc.generate()
+            try:
+                DummySimulator().simulate(scene, maxSteps=5, maxIterations=1)
+                first = "no exception"
+            except RuntimeError as e:
+                first = "RuntimeError"
+                del e
+            a = veneer.currentBehavior
+            try:
+                scenic.scenarioFromString(r["code"])
+                again = "ok"
+            except Exception as e:
+                again = f"{type(e).__name__}: {e}"
+            out["violated"] = a is not None or again != "ok"
+            out["what"] = (f"an interrupt condition raising while the try body is suspended inside `do Y()`: simulate raised {first}, "
+                           f"veneer.currentBehavior is {a} once the exception is released; compiling again: {again}")
+        elif name == "stale-subscenarios":
+            sc = scenic.scenarioFromString(r["code"], scenario=r["scenario"])
+            scene, _ = sc.generate()
+            recs = []
+            for _ in range(2):
+                sim = DummySimulator().simulate(scene, maxSteps=5)
+                recs.append([t for t, _v in sim.result.records["sfoo"]])
+            out["violated"] = recs[0] != recs[1]
+            out["what"] = (f"simulating the same scene twice: the sub-scenario started at step 2 records `sfoo` at steps {recs[0]} in the first "
+                           f"run and at steps {recs[1]} in the second (the shared top-level scenario still lists the sub-scenario of the "
+                           "first run in _subScenarios, so its record statement is evaluated from step 0)")
+        elif name == "destroy-failure":
+            class DS(DummySimulation):
+                def destroy(self):
+                    raise ConnectionError("lost connection to the simulator")
+
+            class DSim(DummySimulator):
+                def createSimulation(self, scene, **kw):
+                    return DS(scene, **kw)
+            sc = scenic.scenarioFromString(r["code"])
+            scene, _ = sc.generate()
+            try:
+                DSim().simulate(scene, maxSteps=2)
+                first = "no exception"
+            except Exception as e:
+                first = type(e).__name__
+            stuck = veneer.currentSimulation is not None
+            proxied = object.__getattribute__(scene.objects[0], "_dynamicProxy") is not scene.objects[0]
+            try:
+                scenic.scenarioFromString(r["code"])
+                again = "ok"
+            except BaseException as e:
+                again = type(e).__name__
+            out["violated"] = stuck or proxied or again != "ok"
+            out["what"] = (f"a simulation whose destroy() raises ConnectionError: simulate raised {first}, veneer.currentSimulation is "
+                           f"{'still set' if stuck else 'None'}, the scene's object is {'still' if proxied else 'not'} proxied, "
+                           f"compiling afterwards: {again} (the finally block of Simulation.__init__ was left at its first statement)")
     except BaseException as e:
         if isinstance(e, (KeyboardInterrupt, SystemExit)):
             raise
@@ -1394,26 +1559,29 @@ def parse_side(line):
 def run(ctx):
     ctx.rule = ("cases = (generated dynamic program, failure point = tag of a block kind x n-th execution x mode raise/reject/false, "
                 "history position) executed in worker processes that run several cases in a row; every case yields a scene "
-                "snapshot before/after, the veneer globals, an identical follow-up run and a from-scratch follow-up compared with a "
-                "fresh-process reference, the event trace fed to the Lean model, and the override-undone check at every scenario end; "
-                "plus operation sequences on the real veneer functions; non-trivial = a failure was injected or an override executed; "
-                "distinct by content hash")
+                "snapshot before/after, the veneer globals, an identical follow-up run, a scene generated from the same compiled "
+                "scenario after the simulations and a from-scratch follow-up, each compared with a fresh-process reference, the event "
+                "trace fed to the Lean model, and the override-undone check at every scenario end; plus operation sequences on the "
+                "real veneer functions; non-trivial = a failure was injected or an override executed; distinct by content hash")
     ctx.assumptions += [
         "objects are identified by numbers and tracked properties are integers in the model; the scheduler (which event happens "
         "when) is not modelled: theorems quantify over all event sequences, the correspondence feeds the events the real run produced",
         "parallel sibling sub-scenarios overriding the same property of the same object are outside the modelled fragment "
         "(the real code reverts siblings in start order; override lifetimes that are not nested cannot all be 'undone')",
-        "exceptions raised by Simulation.destroy() or by a scenario's _stop inside the finally block are not modelled",
-        "'exactly as in a fresh process' beyond the modelled veneer globals (module caches, import state) is compared observationally",
+        "of the statements of the finally block only Simulation.destroy() (simulator code) is modelled as able to raise; "
+        "exceptions raised by a scenario's or behavior's _stop inside the block are not modelled",
+        "'exactly as in a fresh process' beyond the modelled veneer globals (module caches, import state, state kept by scenario "
+        "objects) is compared observationally",
     ]
     ctx.trusted_base += ["tools/translate/simcleanup.py, tools/translate/veneerglobals.py (template extraction)",
                          "tools/props/c14.py (instrumentation, correspondence, failure-injection oracle)"]
     ctx.fingerprint(FINGERPRINTS)
     from translate import simcleanup, veneerglobals
-    tables = None
+    tables = vg = None
     try:
         ctx.gen("SimCleanup", simcleanup.to_lean(simcleanup.extract()))
     except TemplateMismatch as e:
+        ctx.gen_restore("SimCleanup")
         ctx.escalated.append(f"translator tie lost (simcleanup): {e}")
         ctx.notes.append(f"translator tie lost for the clean-up/override bookkeeping: {e}; relying on correspondence at thorough budget")
     try:
@@ -1421,37 +1589,45 @@ def run(ctx):
         ctx.gen("VeneerGlobals", veneerglobals.to_lean(vg))
         tables = vg["sessions"]
     except TemplateMismatch as e:
+        vg = None
+        ctx.gen_restore("VeneerGlobals")
         ctx.escalated.append(f"translator tie lost (veneerglobals): {e}")
         ctx.notes.append(f"translator tie lost for the veneer globals: {e}; relying on correspondence at thorough budget")
     pr = ctx.prove(THEOREMS, side_conditions=SIDE)
     total_obl, total_dis, axioms = pr.obligations, pr.discharged, dict(pr.axioms)
+    driver_ok = pr.build_ok
+    if not pr.build_ok:
+        # a side condition (or a proof) no longer checks; the model itself still runs: build the driver alone, so that the
+        # correspondence and the diagnostics below are available for the failing-input search
+        rc, _log = ctx.lake(["build", "drv_c14"])
+        driver_ok = rc == 0
     flags = {}
     pending = {}   # finding key -> description of the side condition that is false
-    if pr.build_ok:
+    if driver_ok:
         flags = parse_side(ctx.driver(["C14 side"])[0])
         ctx.extra["side_conditions"] = flags
+        if not pr.build_ok:
+            false_main = [f for f in MAIN_FLAGS if flags.get(f) != "1"]
+            ctx.notes.append(f"Props/C14.lean no longer builds; side conditions that are false on the regenerated data: {false_main or 'none'}"
+                             f" (leaking globals: {flags.get('simleaks')},{flags.get('compleaks')}; suspended blocks: {flags.get('suspended')};"
+                             f" merge: {flags.get('merge')})")
         for mod, thms, need in SIDE_MODULES:
             false = [f for f in need if flags.get(f) != "1"]
             total_obl += len(thms)
             if not false:
-                r = ctx.prove(thms, module=mod, extra_targets=())
-                total_dis += r.discharged
-                axioms.update(r.axioms)
+                if pr.build_ok:
+                    r = ctx.prove(thms, module=mod, extra_targets=())
+                    total_dis += r.discharged
+                    axioms.update(r.axioms)
             else:
                 for f in false:
-                    detail = f"side condition `{f}` is false on the data generated from the source ({mod})"
-                    if f in ("simwrites", "compwrites"):
-                        leaks = (flags.get("simleaks", "") + "," + flags.get("compleaks", "")).strip(",").split(",")
-                        extra = sorted(set(x for x in leaks if x and x != "inInitialScenario"))
-                        if extra:
-                            ctx.broken("proof", mod, f"globals assigned but never reset: {extra}")
-                        detail += f"; leaking globals: {sorted(set(x for x in leaks if x))}"
-                    if f == "susp" and flags.get("suspended", "") != "executeInBehavior":
-                        ctx.broken("proof", mod, f"context managers held open across a yield: {flags.get('suspended')}")
-                    pending.setdefault(FLAG_FINDING[f], detail)
-        if ctx.tier == "thorough":
-            mods = ["ScenicModel.Props.C14", "ScenicModel.Props.C14Overrides", "ScenicModel.Props.C14Stale",
-                    "ScenicModel.Props.C14Revert", "ScenicModel.Props.C14Nested", "ScenicModel.Props.C14Witness", "ScenicModel.Props.C14Globals"]
+                    pending.setdefault(FLAG_FINDING[f], f"side condition `{f}` is false on the data generated from the source ({mod})")
+        if ctx.tier == "thorough" and pr.build_ok:
+            mods = ["ScenicModel.Props.C14", "ScenicModel.Props.C14Base", "ScenicModel.Props.C14Overrides", "ScenicModel.Props.C14Stale",
+                    "ScenicModel.Props.C14Revert", "ScenicModel.Props.C14Nested", "ScenicModel.Props.C14Witness",
+                    "ScenicModel.Props.C14Globals", "ScenicModel.Props.C14Destroy", "ScenicModel.Props.C14SideOrder",
+                    "ScenicModel.Props.C14SideAgents", "ScenicModel.Props.C14SideStale", "ScenicModel.Props.C14SideGlobals",
+                    "ScenicModel.Props.C14SideSuspended"]
             ctx.leanchecker(mods)
     pr.obligations, pr.discharged, pr.axioms = total_obl, total_dis, axioms
     ctx.proof = pr
@@ -1460,8 +1636,8 @@ def run(ctx):
     moddir = os.path.join(ctx.tmp, "models")
     # ------------------------------------------------------------------ build the cases
     rng = ctx.rng
-    ncases = ctx.budget(120, 3000)
-    if os.environ.get("VERIF_C14_CASES"):   # debugging knob (mutant testing on a loaded machine); not used by ./check
+    ncases = ctx.budget(100, 3000)
+    if os.environ.get("VERIF_C14_CASES"):   # debugging knob; not used by ./check
         ncases = int(os.environ["VERIF_C14_CASES"])
     per_hist = 10
     cases, hists = [], []
@@ -1469,28 +1645,38 @@ def run(ctx):
         force = None
         if i % 25 == 0:
             force = dict(depth=2, beh_override=True, pre_write=True, flat=False)
+        elif i % 25 == 1:
+            force = dict(depth=1, top_override=True, sub_record=True, flat=False, dyn_obj=True, dyn_behavior=True)
         code, meta = gen_program(rng, force)
         phase, plan = gen_plan(rng, meta)
         case = {"id": i, "code": code, "meta": meta, "phase": phase, "plan": plan, "s1": rng.getrandbits(30),
                 "s2": rng.getrandbits(30), "moddir": moddir, "two_scenes": rng.random() < 0.4,
-                "warmup": rng.random() < 0.3, "scratch": rng.random() < 0.5}
+                "warmup": rng.random() < 0.3, "scratch": rng.random() < 0.4, "late": rng.random() < 0.4,
+                "params": ({"p": 0.25} if rng.random() < 0.25 else None)}
         cases.append(case)
     for i in range(0, ncases, per_hist):
         hists.append({"cases": cases[i:i + per_hist]})
     nproc = min(16, max(2, os.cpu_count() or 2))
+    if os.environ.get("VERIF_C14_PROCS"):   # development knob (shared machine)
+        nproc = max(1, int(os.environ["VERIF_C14_PROCS"]))
     t0 = time.time()
     try:
         with _pool(nproc) as pool:
             reg_async = [pool.apply_async(run_regression, (name,)) for name in REGRESSION]
             glob_async = []
-            if tables is not None:
+            if tables is not None and driver_ok:
                 nseq = ctx.budget(120, 3000)
                 chunk = max(10, nseq // nproc)
                 glob_async = [pool.apply_async(run_glob_sequences, ((rng.getrandbits(30), chunk, vg),))
                               for _ in range(max(1, nseq // chunk))]
+            late_cases = [c for c in cases if c["late"]]
+            late_async = pool.map_async(reference, [dict(c, _late=True) for c in late_cases], chunksize=1)
             refs = pool.map(reference, cases, chunksize=1)
             for c, r in zip(cases, refs):
                 c["ref"] = r
+            late_refs = late_async.get(timeout=6000)
+            for c, r in zip(late_cases, late_refs):
+                c["ref_late"] = r
             hist_res = pool.map(run_history, hists, chunksize=1)
             reg_res = [a.get(timeout=3000) for a in reg_async]
             glob_res = [x for a in glob_async for x in a.get(timeout=3000)]
@@ -1499,7 +1685,7 @@ def run(ctx):
     except Exception as e:
         raise Infra(f"worker pool failed: {type(e).__name__}: {e}")
     ctx.extra["oracle_wall_s"] = round(time.time() - t0, 1)
-    ctx.extra["oracle_cpu_s"] = round(sum((r or {}).get("cpu", 0) for r in refs)
+    ctx.extra["oracle_cpu_s"] = round(sum((r or {}).get("cpu", 0) for r in list(refs) + list(late_refs))
                                       + sum(x["info"].get("cpu", 0) for hr in hist_res for x in hr), 1)
 
     # ------------------------------------------------------------------ regression corpus first (explains false side conditions)
@@ -1526,19 +1712,21 @@ def run(ctx):
             if "invalid" in res["info"] or "invalid" in (case.get("ref") or {}):
                 invalid += 1
                 ctx.hist("case", "generator-invalid")
+                if invalid <= 2:
+                    ctx.notes.append(f"case {case['id']} invalid: {res['info'].get('invalid') or (case.get('ref') or {}).get('invalid')}")
                 continue
             plan = case["plan"] or {}
-            ctx.case((case["code"], case["phase"], json.dumps(plan, sort_keys=True), case["two_scenes"], case["warmup"]),
+            ctx.case((case["code"], case["phase"], json.dumps(plan, sort_keys=True), case["two_scenes"], case["warmup"],
+                      case["late"], bool(case["params"])),
                      nontrivial=bool(plan) or "override" in case["code"])
             ctx.hist("phase", case["phase"])
             ctx.hist("failure_tag", plan.get("tag", "-"))
             ctx.hist("failure_mode", plan.get("mode", "-"))
             ctx.hist("main_outcome", str(res["info"].get("main", res["info"].get("compile"))))
             ctx.hist("depth", case["meta"]["depth"])
+            ctx.hist("followups", "+".join(k for k in ("two_scenes", "warmup", "late", "scratch", "params") if case.get(k)) or "rerun-only")
             for p in res["problems"]:
-                rep = {"kind": "history", "cases": [c for c in h["cases"] if c["id"] <= case["id"]], "at": case["id"]}
-                for c in rep["cases"]:
-                    c = dict(c)
+                rep = {"kind": "history", "cases": [c for c in h["cases"] if c["id"] <= case["id"]], "at": case["id"], "key": p["key"]}
                 if ctx.violation(p["key"], p["what"], _slim(rep)):
                     found = True
             if res["lean"]:
@@ -1547,7 +1735,7 @@ def run(ctx):
                 owners.append(case)
     if invalid > 0.3 * max(1, ncases):
         raise Infra(f"{invalid} of {ncases} generated programs were invalid: the generator is broken")
-    if pr.build_ok:
+    if driver_ok:
         bad = 0
         out = ctx.driver(lines) if lines else []
         for ln, exp, got, case in zip(lines, expects, out, owners):
@@ -1562,6 +1750,7 @@ def run(ctx):
                     ctx.broken("correspondence", "overrides/proxies model vs instrumented simulation",
                                f"case {case['id']} plan={case['plan']} observation #{k}: real={et[k] if k < len(et) else '-'} "
                                f"lean={gt[k] if k < len(gt) else '-'}; line={ln[:600]}")
+        ctx.extra["traces_validated_against_impl"] = len(lines)
         gl, ge = [], []
         for g in glob_res:
             if "line" in g:
@@ -1599,31 +1788,46 @@ def run(ctx):
 def _slim(rep):
     cases = []
     for c in rep["cases"]:
-        c = {k: v for k, v in c.items() if k != "ref"}
+        c = {k: v for k, v in c.items() if k not in ("ref", "ref_late")}
         cases.append(c)
-    return {"kind": rep["kind"], "at": rep["at"], "cases": cases}
+    return {"kind": rep["kind"], "at": rep["at"], "key": rep.get("key"), "cases": cases}
 
 
 def replay(ctx, path):
+    """Re-executes the recorded input against $SCENIC_REPO; exit status 1 if the recorded problem shows again, 0 if not."""
     body = json.load(open(path))
     rep = body.get("replay", body)
     if rep.get("kind") == "regression":
         with _pool(1) as pool:
             r = pool.apply(run_regression, (rep["name"],))
         print(json.dumps(r, indent=1))
-        return 0
+        if r.get("harness_error"):
+            return 2
+        print("REPRODUCED" if r["violated"] else "not reproduced (the property holds on this input)")
+        return 1 if r["violated"] else 0
     if rep.get("kind") == "history":
+        moddir = os.path.join(ctx.tmp, "models")
+        for c in rep["cases"]:
+            c["moddir"] = moddir
         with _pool(2) as pool:
             refs = pool.map(reference, rep["cases"], chunksize=1)
-            for c, r in zip(rep["cases"], refs):
+            late = pool.map(reference, [dict(c, _late=True) for c in rep["cases"]], chunksize=1)
+            for c, r, rl in zip(rep["cases"], refs, late):
                 c["ref"] = r
+                if c.get("late"):
+                    c["ref_late"] = rl
             res = pool.apply(run_history, ({"cases": rep["cases"]},))
+        again = False
         for c, r in zip(rep["cases"], res):
             print(f"case {c['id']} phase={c['phase']} plan={c['plan']} info={r['info']}")
             for p in r["problems"]:
                 print("   PROBLEM", p["key"], "--", p["what"])
+                if c["id"] == rep.get("at") and (rep.get("key") is None or p["key"] == rep["key"]):
+                    again = True
             if r.get("harness_error"):
                 print("   harness error:", r["harness_error"])
-        return 0
+        print("REPRODUCED" if again else "not reproduced (the property holds on this input)")
+        return 1 if again else 0
     print(json.dumps(rep, indent=1)[:4000])
+    print("no concrete input recorded (broken obligation): run ./check C14 to re-evaluate")
     return 0
